@@ -104,16 +104,27 @@ def writes (s : Shape) (k : Call) (a : Arr) (r θ : Int) : Prop :=
 /-- nodes of array `a` a call may READ (only arrays that are written somewhere in the same region are listed) -/
 def reads (s : Shape) (k : Call) (a : Arr) (r θ : Int) : Prop :=
   match k.cls, k.fn with
-  | .SmootherGive, .applyAscOrthoCircleSection | .ExSmootherGive, .applyAscOrthoCircleSection =>
+  | .SmootherGive, .applyAscOrthoCircleSection =>
       a = .x ∧ ((colourIs (circleBlack s k.arg) k.colour ∧ (r = k.arg - 1 ∨ r = k.arg + 1)) ∨ (¬ colourIs (circleBlack s k.arg) k.colour ∧ r = k.arg))
-  | .SmootherGive, .applyAscOrthoRadialSection | .ExSmootherGive, .applyAscOrthoRadialSection =>
+  | .SmootherGive, .applyAscOrthoRadialSection =>
       a = .x ∧ ((colourIs (lineBlack k.arg) k.colour ∧ ((s.nc ≤ r ∧ (θ = thM s k.arg ∨ θ = thP s k.arg)) ∨
                    (r = s.nc - 1 ∧ (θ = k.arg ∨ θ = thM s k.arg ∨ θ = thP s k.arg))))
                ∨ (¬ colourIs (lineBlack k.arg) k.colour ∧ s.nc - 1 ≤ r ∧ θ = k.arg))
-  | .SmootherTake, .applyAscOrthoCircleSection | .ExSmootherTake, .applyAscOrthoCircleSection =>
+  | .SmootherTake, .applyAscOrthoCircleSection =>
       a = .x ∧ (r = k.arg - 1 ∨ r = k.arg + 1)
-  | .SmootherTake, .applyAscOrthoRadialSection | .ExSmootherTake, .applyAscOrthoRadialSection =>
+  | .SmootherTake, .applyAscOrthoRadialSection =>
       a = .x ∧ ((s.nc ≤ r ∧ (θ = thM s k.arg ∨ θ = thP s k.arg)) ∨ (r = s.nc - 1 ∧ (θ = k.arg ∨ θ = thM s k.arg ∨ θ = thP s k.arg)))
+  -- the extrapolated smoothers additionally read `x` on the OWN line: the coarse nodes of a line are not unknowns of its
+  -- line system, their current values go to the right-hand side (found by the footprint probe `h_foot`, not by reading)
+  | .ExSmootherGive, .applyAscOrthoCircleSection =>
+      a = .x ∧ (r = k.arg ∨ (colourIs (circleBlack s k.arg) k.colour ∧ (r = k.arg - 1 ∨ r = k.arg + 1)))
+  | .ExSmootherGive, .applyAscOrthoRadialSection =>
+      a = .x ∧ ((s.nc - 1 ≤ r ∧ θ = k.arg) ∨
+                (colourIs (lineBlack k.arg) k.colour ∧ s.nc - 1 ≤ r ∧ (θ = thM s k.arg ∨ θ = thP s k.arg)))
+  | .ExSmootherTake, .applyAscOrthoCircleSection =>
+      a = .x ∧ (r = k.arg - 1 ∨ r = k.arg ∨ r = k.arg + 1)
+  | .ExSmootherTake, .applyAscOrthoRadialSection =>
+      a = .x ∧ s.nc - 1 ≤ r ∧ (θ = k.arg ∨ θ = thM s k.arg ∨ θ = thP s k.arg)
   | _, .solveCircleSection => a = .temp ∧ r = k.arg
   | _, .solveRadialSection => a = .temp ∧ s.nc ≤ r ∧ θ = k.arg
   | _, _ => False
